@@ -514,7 +514,8 @@ def oracle (prop : String) (c : Case) (h : Spec.History) (closedWin hsRetx ackIg
     | none =>
       match Spec.c13Check c.cfg h with
       | some m =>
-        let pat := if leftover.contains "orphan" && patOrphanChild h then "F-C13-1"
+        let pat := if m.startsWith "connect refused although the listener" then "F-C13-5"
+                   else if leftover.contains "orphan" && patOrphanChild h then "F-C13-1"
                    else if leftover.contains "blocked" && closedWin then "F-C13-3"
                    else if leftover.contains "persisting" then "F-C13-4"
                    else if leftover.contains "stranded" && patLostRst h then "F-C13-2"
